@@ -220,11 +220,17 @@ package drpcwire
 
 //@ func (*Reader).read
 //@   mode int
-//@   props C09 C13 C05
+//@   props C09 C13 C05 C01
 //@   modifies mem(p), r.rerr
 //@   loop 1 invariant [i] 0 <= i && i <= 100 && r == r0 && p == p0
 //@   requires r.r != nil
 //@   ensures [shape] (n > 0 && n <= len(p) && err == nil) || (n == 0 && err != nil)
+//@   ghost entry rn = 0
+//@   ghost after:Read rn = ret0
+//@   ghost loop:1 rn = 0
+//@   site Read assert [C09,C01.reads-into-p] arg1 == p
+//@   loop 1 step [C09,C01.no-byte-dropped] rn <= 0
+//@   check [C09,C01.returns-what-was-read] err == nil ==> n == rn
 
 //@ spec idLess(a ID, b ID) bool = a.Stream < b.Stream || (a.Stream == b.Stream && a.Message < b.Message)
 //@ spec idLeq(a ID, b ID) bool = a == b || idLess(a, b)
